@@ -346,10 +346,12 @@ def run_check(mod, tier, seed):
         o1 = canon(r1["observed"]) if r1 else None
         o2 = canon(r2["observed"]) if r2 else None
         if (r1 is None) != (r2 is None):
-            machinery_error(
-                f"unowned nondeterminism replaying {canon(v['case'])}: {o1} vs {o2}"
-            )
-        if r1 is None:
+            # two identical replays of one case disagree: the outcome depends on what the package
+            # did before (state kept inside the package) - reported, with both observations
+            v["kind"] = v["kind"] + "(history-dependent)"
+            v["observed"] = {"during_exploration": v["observed"], "first_replay": o1, "second_replay": o2}
+            v["case"] = {"history_of_shard": v.get("shard"), "failing_case": v["case"]}
+        elif r1 is None:
             # The case failed during the exploration but passes when run on its own: its outcome
             # depends on what the package did before, i.e. on state hidden in the package (on the
             # unchanged tree no case fails at all, so this branch is never reached there).  Re-run
